@@ -210,6 +210,19 @@ Example c02_iv_size_nonvacuous :
   end = true.
 Proof. vm_compute. reflexivity. Qed.
 
+(* ---- 5b. "zip" only from the PROTECTED header (RFC 7516 4.1.3: it MUST be integrity protected): without it there
+   the returned plaintext IS the AEAD output, whatever "zip" (or anything else) the shared unprotected header or the
+   per-recipient headers carry; with it there, the inflate of the AEAD output ---- *)
+Theorem c02_zip_only_protected : forall O g o m,
+  perform_decrypt O g o = Ok m -> dmem (j_prot o) (s_ "zip") = false ->
+  exists e cek aad, dec_aad O o = Ok aad /\ enc_decrypt O e (j_ct o) (j_tag o) cek (j_iv o) aad = Ok m.
+Proof. exact zip_only_protected. Qed.
+
+Theorem c02_zip_protected : forall O g o m,
+  perform_decrypt O g o = Ok m -> dmem (j_prot o) (s_ "zip") = true ->
+  exists e cek aad msg, enc_decrypt O e (j_ct o) (j_tag o) cek (j_iv o) aad = Ok msg /\ o_inflate O msg = Ok m.
+Proof. exact zip_protected. Qed.
+
 (* ---- 6. epk: validating import, curve gate, then ECDH ---- *)
 Theorem c02_epk : forall O a e hs r tag k,
   dec_auk O a e hs r tag = Ok k ->
@@ -318,6 +331,8 @@ Print Assumptions c02_cbc_tag_length.
 Print Assumptions c02_cbc_accept.
 Print Assumptions c02_direct_ek_empty.
 Print Assumptions c02_iv_size.
+Print Assumptions c02_zip_only_protected.
+Print Assumptions c02_zip_protected.
 Print Assumptions c02_epk.
 Print Assumptions c02_epk_import_fails.
 Print Assumptions c02_epk_curve_mismatch.
